@@ -913,6 +913,46 @@ func (c *Conn) Send(body []byte, contentRelated bool) int64 {
 	return id
 }
 
+// SendNested sends the items inside a msg_container that is itself the only item of an outer msg_container.
+func (c *Conn) SendNested(items []*Item) int64 {
+	if c.key == nil || c.Closed() {
+		return 0
+	}
+	inner := c.containerBody(items)
+	c.S.mu.Lock()
+	seq := c.nextSeq(false)
+	c.S.mu.Unlock()
+	innerID := c.S.nextMsgID(1)
+	c.S.log(Event{Kind: "sent", Conn: c.ID, MsgID: innerID, SeqNo: seq, Ctor: fmt.Sprintf("%08x", uint32(IDMsgContainer)), Len: len(inner), InCont: true, Note: fmt.Sprintf("inner container of %d", len(items))})
+	w := &W{}
+	w.U32(IDMsgContainer).U32(1).I64(innerID).I32(seq).U32(uint32(len(inner))).Raw(inner)
+	c.S.mu.Lock()
+	oseq := c.nextSeq(false)
+	c.S.mu.Unlock()
+	id := c.S.nextMsgID(1)
+	c.S.log(Event{Kind: "sent", Conn: c.ID, MsgID: id, SeqNo: oseq, Ctor: fmt.Sprintf("%08x", uint32(IDMsgContainer)), Len: len(w.B), Note: "outer container"})
+	c.WriteFrame(c.seal(id, oseq, w.B))
+	return id
+}
+
+func (c *Conn) containerBody(items []*Item) []byte {
+	w := &W{}
+	w.U32(IDMsgContainer).U32(uint32(len(items)))
+	for _, it := range items {
+		c.S.mu.Lock()
+		it.SeqNo = c.nextSeq(it.ContentRelated)
+		c.S.mu.Unlock()
+		it.MsgID = c.S.nextMsgID(1)
+		ctor := uint32(0)
+		if len(it.Body) >= 4 {
+			ctor = binary.LittleEndian.Uint32(it.Body)
+		}
+		c.S.log(Event{Kind: "sent", Conn: c.ID, MsgID: it.MsgID, SeqNo: it.SeqNo, Ctor: fmt.Sprintf("%08x", ctor), Len: len(it.Body), InCont: true})
+		w.I64(it.MsgID).I32(it.SeqNo).U32(uint32(len(it.Body))).Raw(it.Body)
+	}
+	return w.B
+}
+
 // SendContainer sends the items in one msg_container (the container itself is not content-related).
 func (c *Conn) SendContainer(items []*Item) int64 {
 	if c.key == nil || c.Closed() {
